@@ -70,6 +70,7 @@ _CODES: Dict[str, Any] = {}
 _CELPY_MODULES = ["celpy", "celpy.celtypes", "celpy.celparser", "celpy.evaluation", "celpy.adapter",
                   "celpy.c7nlib", "celpy.__main__"]
 _RECURSION_DEFAULT = sys.getrecursionlimit()
+HOTNESS: Any = None
 FRESH_COUNT = 0
 
 
@@ -141,6 +142,13 @@ def load_celpy() -> None:
     # across a yield point would be a lock the scheduler does not model.
     logging.disable(logging.CRITICAL)
     _celpy_loaded = True
+    # the static hotness analysis (sim/hotness.py) looks at module- and class-level state: it has to
+    # see the *pristine* state (e.g. CELParser.CEL_PARSER still None), or its verdicts -- and with
+    # them the schedules of focus / hot policies -- would depend on what the process ran before
+    global HOTNESS
+    from . import hotness
+
+    HOTNESS = hotness.Hotness()
 
 
 def fresh_celpy() -> Any:
